@@ -42,7 +42,8 @@ Definition needs (c : call) : list bytes :=
   | CDeleteConfig tgt => url_need tgt
   | CCopyConfig tgt src => url_need tgt ++ src_need src
   | CValidate src => s_k_validate :: src_need src
-  | CCommit _ confirmed _ _ => s_k_candidate :: (if confirmed then [s_k_confirmed] else [])
+  | CCommit v confirmed _ _ pid _ _ =>                  (* a confirmed commit, and the follow-up of a persistent one *)
+      s_k_candidate :: (if confirmed || has_pid v pid then [s_k_confirmed] else [])
   | CCancelCommit _ => [s_k_candidate; s_k_confirmed]
   | CDiscardChanges => [s_k_candidate]
   | CCreateSubscription _ => [s_k_notification]
@@ -74,7 +75,7 @@ Definition wellformed (c : call) : bool :=
   | CDeleteConfig tgt => ds_ok tgt
   | CCopyConfig tgt src => ds_ok tgt && src_ok src
   | CValidate src => src_ok src
-  | CCommit _ _ pre post => none pre && none post
+  | CCommit _ _ _ _ _ pre post => none pre && none post
   | CCancelCommit body => none body
   | CDiscardChanges => true
   | CCreateSubscription body => none body
@@ -105,4 +106,24 @@ Fixpoint count_send (tr : list event) : nat :=
   | [] => 0
   | EvSend :: tr' => S (count_send tr')
   | _ :: tr' => count_send tr'
+  end.
+
+(* (5) RFC 6241 / 6243 / 5277: the capability a construct of a request depends on —
+   8.3 <commit>, <discard-changes> (:candidate); 8.4 <cancel-commit> and the <confirmed>, <confirm-timeout>, <persist>,
+   <persist-id> parameters of <commit> (:confirmed-commit, which itself requires :candidate); 8.5 :rollback-on-error;
+   8.6 <validate>, <test-option> (:validate; test-only since :validate:1.1); 8.8 <url>; RFC 6243 <with-defaults>;
+   RFC 5277 <create-subscription> *)
+Definition wire_needs (w : wire) : list bytes :=
+  match w with
+  | WCommit => [s_k_candidate]
+  | WConfirmed | WConfirmTimeout | WPersist | WPersistId => [s_k_confirmed]
+  | WCancelCommit => [s_k_candidate; s_k_confirmed]
+  | WDiscardChanges => [s_k_candidate]
+  | WValidate => [s_k_validate]
+  | WTestOption => [s_k_validate]
+  | WTestOnly => [s_k_validate11]
+  | WRollbackOnError => [s_k_rollback]
+  | WUrl => [s_k_url]
+  | WWithDefaults => [s_k_wd]
+  | WCreateSubscription => [s_k_notification]
   end.
